@@ -77,6 +77,14 @@ class ChildDAO(DataAccessObject):
     pass
 
 
+class SubThing(Thing):
+    pass
+
+
+class SubDAO(ChildDAO):
+    pass
+
+
 class Mapped(AlternativeMapping):
     def __init__(self, **kw):
         for k, v in kw.items():
@@ -99,6 +107,7 @@ class DW:
         self.dirs = {n: L.external("sqlalchemy.orm", n) for n in ("MANYTOONE", "ONETOMANY", "MANYTOMANY")}
         self.ThingDAO, self.ChildDAO, self.Thing = (cls(vm, "pyvc_synth_c04", n) for n in ("ThingDAO", "ChildDAO", "Thing"))
         self.Mapped = cls(vm, "pyvc_synth_c04", "Mapped")
+        self.SubThing, self.SubDAO = cls(vm, "pyvc_synth_c04", "SubThing"), cls(vm, "pyvc_synth_c04", "SubDAO")
         self.mapper = self.make_mapper()
         insp = vm.alloc(vm.ext("object"), {"inspect": Builtin("inspect", lambda it, fr, a, k: self.mapper)}, tag="sqlalchemy.inspection")
         L.externals[("sqlalchemy", "inspection")] = insp
@@ -145,7 +154,7 @@ def nested_to_dao(W, top_cls):
         it.call_method(state, "register", obj, d)
         return d
     vm.spec.stubs["DataAccessObject.to_dao"] = stub
-    vm.spec.stubs[f"{DAO}:get_dao_class"] = lambda it, a, k: W.ChildDAO
+    vm.spec.stubs[f"{DAO}:get_dao_class"] = lambda it, a, k: W.SubDAO if a[0] is W.SubThing else W.ChildDAO
     return depth
 
 
@@ -155,10 +164,12 @@ def h_to_dao():
         ctx = vm.ctx
         W = DW(vm)
         st = W.state("ToDAOState")
-        c1, c2 = W.domain("child1"), W.domain("child2")
+        c1 = W.domain("child1")
+        c2 = vm.alloc(W.SubThing, {}, tag="child2")           # a subclass instance in a base-typed position
+        c3 = W.domain("child3")
         variant = ctx.choice(3, "graph")
         obj = W.domain("root", a=1, b="x", database_id=99, owner_id=98, polymorphic_type="nope",
-                       one=c1 if variant != 1 else None, other=c2, many=PyList([c1, c2, c2]), links=PyList([]))
+                       one=c1 if variant != 1 else None, other=c3, many=PyList([c1, c2, c2]), links=PyList([]))
         if variant == 2:
             obj.fields["one"] = obj                      # a cycle back to the object being converted
         filled = []
@@ -190,14 +201,18 @@ def h_to_dao():
                   z3.BoolVal(all(n not in r.fields for n in ("database_id", "owner_id", "polymorphic_type"))), detail=repr(sorted(r.fields)))
         d1 = memo.vals.get(key_of(1000000 + c1.oid))
         d2 = memo.vals.get(key_of(1000000 + c2.oid))
+        d3 = memo.vals.get(key_of(1000000 + c3.oid))
         if variant == 1:
             ctx.check("DataAccessObject._extract_single_relationship::none-stays-none", z3.BoolVal("one" in r.fields and r.fields["one"] is None))
         elif variant == 0:
             ctx.check("DataAccessObject._extract_single_relationship::the-reference-becomes-the-dao-of-the-referenced-object", z3.BoolVal(r.fields.get("one") is d1 and d1 is not None))
-        ctx.check("DataAccessObject._extract_single_relationship::a-scalar-one-to-many-is-treated-as-a-reference", z3.BoolVal(r.fields.get("other") is d2 and d2 is not None))
+        ctx.check("DataAccessObject._extract_single_relationship::a-scalar-one-to-many-is-treated-as-a-reference", z3.BoolVal(r.fields.get("other") is d3 and d3 is not None))
         many = r.fields.get("many")
         ctx.check("DataAccessObject._extract_collection_relationship::elements-in-order-duplicates-kept-one-dao-per-object",
                   z3.BoolVal(isinstance(many, PyList) and len(many.items) == 3 and many.items[0] is d1 and many.items[1] is d2 and many.items[2] is d2), detail=repr(many))
+        ctx.check("DataAccessObject._extract_collection_relationship::every-element-is-converted-with-the-dao-class-of-its-own-type",
+                  z3.BoolVal(isinstance(many, PyList) and len(many.items) == 3 and many.items[0].cls is W.ChildDAO and many.items[1].cls is W.SubDAO and many.items[2].cls is W.SubDAO),
+                  detail=repr(many))
         links = r.fields.get("links")
         ctx.check("DataAccessObject._extract_collection_relationship::an-empty-collection-stays-empty", z3.BoolVal(isinstance(links, PyList) and links.items == []))
         ctx.check("DataAccessObject.get_relationships_from::every-nested-conversion-shares-the-state",
